@@ -14,7 +14,7 @@ PID = "C19"
 LEAN_MODULE = "NiVerif.Props.C19"
 NAMESPACE = "Props.C19"
 DRIVER = "drivers/C19.lean"
-GEN_MODULES = []
+GEN_MODULES = ["Scalar"]
 EXTRA_LEAN_MODULES = ["NiVerif.Model.Units"]
 THEOREMS = ["get_set_same", "get_set_other", "get_erase_same", "get_erase_other", "run_lastWrite", "units_two_views",
             "attr_write_visible_in_dict", "dict_write_visible_in_attr", "dict_delete_gives_empty",
@@ -23,7 +23,7 @@ THEOREMS = ["get_set_same", "get_set_other", "get_erase_same", "get_erase_other"
             "strLt_irrefl", "strLt_trichotomy", "strLt_trans", "num_trichotomy", "nan_compares_false",
             "scalar_eq_spec", "scalar_eq_kinds", "scalar_eq_units", "scalar_eq_str", "le_iff_lt_or_eq",
             "xy_accepts_iff", "xy_refusal_class", "xy_refusal_table", "from1d_accepts_iff", "from1d_refusal_class",
-            "arrEq_iff", "xy_eq_spec"]
+            "arrEq_iff", "xy_eq_spec", "gen_scalar_order_eq_model", "gen_scalar_eq_eq_model"]
 RULE = ("(1) seeded write histories (attribute setter with str and non-str values, dictionary item assignment and deletion, "
         "pickle / deepcopy) on Scalar, Vector, XYData, AnalogWaveform, ComplexWaveform, Spectrum and DigitalWaveform: after "
         "every step each units / x_units / y_units / channel_name attribute is compared with the dictionary entry (oracle) "
